@@ -565,3 +565,179 @@ func checkStringCol(t *testing.T, col string, hs interface{}, rs []Rec, page, ro
 		}
 	}
 }
+
+// ---- C06: histories over {Add, Write} ending in Close, compared with a list-of-batches model (bounded)
+
+func runHistory(t testing.TB, rs []Rec, hist []byte, pageSize int, codec func(*ParquetWriter) error) (file []byte, batches [][]Rec) {
+	var buf bytes.Buffer
+	w, err := NewParquetWriter(&buf, MaxPageSize(pageSize), codec)
+	if err != nil {
+		t.Fatal(err)
+	}
+	var pending []Rec
+	i := 0
+	for _, op := range hist {
+		if op == 'A' {
+			w.Add(rs[i])
+			pending = append(pending, norm(rs[i]))
+			i++
+			continue
+		}
+		if err := w.Write(); err != nil {
+			t.Fatal(err)
+		}
+		if len(pending) > 0 {
+			batches = append(batches, pending)
+			pending = nil
+		}
+	}
+	if err := w.Close(); err != nil {
+		t.Fatal(err)
+	}
+	return buf.Bytes(), batches
+}
+
+func checkHistory(t *testing.T, rs []Rec, hist string, pageSize int, cname string, codec func(*ParquetWriter) error) {
+	defer func() {
+		if r := recover(); r != nil {
+			t.Errorf("REPLAY-FAIL C06 history=%s page=%d codec=%s: panic: %v", hist, pageSize, cname, r)
+		}
+	}()
+	file, batches := runHistory(t, rs, []byte(hist), pageSize, codec)
+	var want []Rec
+	var total int64
+	for _, b := range batches {
+		want = append(want, b...)
+		total += int64(len(b))
+	}
+	fail := func(f string, a ...interface{}) {
+		t.Errorf("REPLAY-FAIL C06 history=%s page=%d codec=%s: %s", hist, pageSize, cname, fmt.Sprintf(f, a...))
+	}
+	footer, err := parquet.ReadMetaData(bytes.NewReader(file))
+	if err != nil {
+		fail("footer unreadable: %v", err)
+		return
+	}
+	if len(footer.RowGroups) != len(batches) {
+		fail("%d row groups in the footer, %d non-empty batches written", len(footer.RowGroups), len(batches))
+	}
+	if footer.NumRows != total {
+		fail("footer NumRows=%d, rows in written batches=%d", footer.NumRows, total)
+	}
+	// every byte between the magic and the footer belongs to exactly one column chunk, in order
+	pos := int64(4)
+	for gi, rg := range footer.RowGroups {
+		if gi < len(batches) && rg.NumRows != int64(len(batches[gi])) {
+			fail("row group %d: NumRows=%d, batch has %d records", gi, rg.NumRows, len(batches[gi]))
+		}
+		for _, col := range rg.Columns {
+			if col.FileOffset != pos {
+				fail("row group %d column %v: FileOffset=%d, previous chunk ended at %d", gi, col.MetaData.PathInSchema, col.FileOffset, pos)
+				return
+			}
+			// walk the pages of the chunk; a required top-level column stores one value per row
+			off, end := pos, pos+col.MetaData.TotalCompressedSize
+			var vals int64
+			for off < end {
+				if off >= int64(len(file)) {
+					fail("row group %d column %v: chunk runs past the end of the file", gi, col.MetaData.PathInSchema)
+					return
+				}
+				cr := &countReader{r: bytes.NewReader(file[off:])}
+				ph, err := parquet.PageHeader(cr)
+				if err != nil || ph.DataPageHeader == nil {
+					fail("row group %d column %v: no page header at offset %d (%v)", gi, col.MetaData.PathInSchema, off, err)
+					return
+				}
+				if len(col.MetaData.PathInSchema) == 1 && col.MetaData.PathInSchema[0] == "id" && int(ph.DataPageHeader.NumValues) > pageSize {
+					fail("row group %d: page of %d records, page size %d", gi, ph.DataPageHeader.NumValues, pageSize)
+				}
+				vals += int64(ph.DataPageHeader.NumValues)
+				off += int64(cr.n) + int64(ph.CompressedPageSize)
+			}
+			if off != end {
+				fail("row group %d column %v: pages end at %d, chunk size says %d", gi, col.MetaData.PathInSchema, off, end)
+				return
+			}
+			if len(col.MetaData.PathInSchema) == 1 && col.MetaData.PathInSchema[0] == "id" && vals != rg.NumRows {
+				fail("row group %d: %d rows stored in column id, footer says %d", gi, vals, rg.NumRows)
+			}
+			pos = end
+		}
+	}
+	if n := len(file); n >= 12 {
+		flen := int64(file[n-8]) | int64(file[n-7])<<8 | int64(file[n-6])<<16 | int64(file[n-5])<<24
+		if pos != int64(n)-8-flen {
+			fail("column chunks end at byte %d, footer starts at byte %d: %d bytes on the stream the footer does not account for", pos, int64(n)-8-flen, int64(n)-8-flen-pos)
+		}
+	}
+	got, err := readAll(bytes.NewReader(file))
+	if err != nil {
+		fail("read back: %v", err)
+		return
+	}
+	if len(got) != len(want) {
+		fail("%d records read back, %d written", len(got), len(want))
+		return
+	}
+	for i := range got {
+		if !reflect.DeepEqual(got[i], want[i]) {
+			fail("record %d differs after the round trip", i)
+			return
+		}
+	}
+}
+
+func TestBoundedC06(t *testing.T) {
+	rs := recs(12, 11)
+	cn := []string{"uncompressed", "snappy", "gzip"}
+	// every history of length <= 7 for page sizes 1..3 (gzip: length <= 5)
+	for ci, name := range cn {
+		maxLen := 7
+		if name == "gzip" {
+			maxLen = 5
+		}
+		for n := 0; n <= maxLen; n++ {
+			for bits := 0; bits < 1<<n; bits++ {
+				h := make([]byte, n)
+				for k := range h {
+					h[k] = 'A'
+					if bits>>k&1 == 1 {
+						h[k] = 'W'
+					}
+				}
+				for ps := 1; ps <= 3; ps++ {
+					checkHistory(t, rs, string(h), ps, name, codecs[name])
+				}
+			}
+		}
+		_ = ci
+	}
+	// longer shapes: exact multiples of the page size followed by an empty Write, pending records at Close
+	for _, h := range []string{"AAAAWW", "AAAAAAWWAAAW", "AAAWAAAWW", "WWAAAAAAAAAW", "AAAAAAAAAAAA", "AAAAAAAAWAAA", "AWWWAWWWAAWA"} {
+		for ps := 1; ps <= 4; ps++ {
+			checkHistory(t, rs, h, ps, "snappy", Snappy)
+		}
+	}
+	// a Write with nothing pending is inert: removing it from the history gives the same bytes
+	for _, h := range []string{"AAWWAAW", "WAAWAAW", "AAWAAWW", "AAAAWWAAAAW"} {
+		var stripped []byte
+		pend := 0
+		for _, op := range []byte(h) {
+			if op == 'A' {
+				pend++
+				stripped = append(stripped, op)
+			} else if pend > 0 {
+				pend = 0
+				stripped = append(stripped, op)
+			}
+		}
+		for ps := 1; ps <= 3; ps++ {
+			a, _ := runHistory(t, rs, []byte(h), ps, Snappy)
+			b, _ := runHistory(t, rs, stripped, ps, Snappy)
+			if !bytes.Equal(a, b) {
+				t.Errorf("REPLAY-FAIL C06 history=%s page=%d: the file differs from the file of the same history without its empty Write calls (%s): %d vs %d bytes", h, ps, stripped, len(a), len(b))
+			}
+		}
+	}
+}
